@@ -259,7 +259,15 @@ MonStep(m, e) ==
     [] e.e = "Clk" -> [m EXCEPT !.libNow = e.v]
     [] e.e = "MainB" -> MainBegin(m)
     [] e.e = "MainE" -> MainEnd(m)
-    [] e.e = "Flt" -> [m EXCEPT !.idle = 0, !.seen = @ \cup {"C15:fault"}]
+    [] e.e = "Flt" ->
+         (* a failed (interrupted, unsupported) wait call is still "the kernel
+            poll" of this iteration: per-iteration bookkeeping starts over *)
+         IF e.c \in {"epoll_wait", "epoll_pwait2", "poll", "ppoll"}
+         THEN [m EXCEPT !.idle = 0, !.seen = @ \cup {"C15:fault"},
+                        !.tk = [k \in Obj |-> [@[k] EXCEPT !.ran = FALSE]],
+                        !.fd = [f \in Obj |-> [@[f] EXCEPT !.called = {}]],
+                        !.roundSeq = m.seq]
+         ELSE [m EXCEPT !.idle = 0, !.seen = @ \cup {"C15:fault"}]
     [] e.e = "Touch" -> V(V(m, "C01:acc-after-unreg"), "C18:not-lent")
     [] e.e = "Fatal" -> [m EXCEPT !.fatal = IF TimerFatal(e.msg) THEN "timer" ELSE "other"]
     [] e.e = "BadCookie" -> V(m, KindProp(e.k) \o ":wrong-cookie")
